@@ -113,6 +113,11 @@ def resolve(model, labels, name):
         return ("sym", name)
     s, u, i = labels[name]
     nb = next_byte_token(model, s, u, i)
+    while nb is not None and nb[1].origin == "pad":
+        # alignment padding is transparent: a label in front of it labels
+        # what follows it
+        u2 = nb[0]
+        nb = next_byte_token(model, s, u2, u2.toks.index(nb[1]) + 1)
     if nb is None:
         return ("end", s)
     return ("tok", nb[1].id)
